@@ -313,6 +313,14 @@ func (f *fx) loopModKeys(li *loopInfo) (keys map[string]bool, all bool) {
 			case ssa.CallInstruction:
 				if k := f.ncallsKey(x); k != "" {
 					keys[k] = true
+					// lastret("callee", i) of a callee called in the loop is arbitrary at the loop head
+					callee := strings.TrimPrefix(k, "E:ncalls:")
+					for i := 0; i < 4; i++ {
+						rk := fmt.Sprintf("E:ret:%s:%d", callee, i)
+						if _, ok := f.e.keySorts[rk]; ok {
+							keys[rk] = true
+						}
+					}
 				}
 				if k := f.visitsKey(x.Common(), x.Pos()); k != "" {
 					keys[k] = true
